@@ -60,14 +60,56 @@ theorem parse_eq (buf : Bytes) :
                   simp only [BTok.pstring16, BTok.uint16, BTok.want, List.length_cons,
                     show ¬ (r3.length + 1 + 1 < 2) by omega, if_false, len16]
                   by_cases h0 : (l1.toNat <<< 8 ||| l2.toNat) = 0
-                  · simp [h0]
+                  · simp only [h0, ne_eq, not_true_eq_false, if_false, Nat.not_lt_zero, List.take_zero, Nat.add_zero]
+                    cases body (vc.toNat &&& 15) ((fp.toNat &&& 240) >>> 4) (fp.toNat &&& 15) [] <;> rfl
                   · simp only [ne_eq, h0, not_false_eq_true, if_true, BTok.area, BTok.want]
                     by_cases hl : r3.length < (l1.toNat <<< 8 ||| l2.toNat)
                     · simp [hl, liftB]
                     · simp only [hl, if_false]
                       cases body (vc.toNat &&& 15) ((fp.toNat &&& 240) >>> 4) (fp.toNat &&& 15) (List.take (l1.toNat <<< 8 ||| l2.toNat) r3) with
                       | error e => rfl
-                      | ok h => simp; omega
+                      | ok h => simp <;> omega
+
+/-- a definite answer of `Two::Parse` does not change when bytes are appended -/
+theorem parse_ext (buf s : Bytes) (h : parse buf ≠ .error .more) : parse (buf ++ s) = parse buf := by
+  rw [parse_eq] at h
+  rw [parse_eq, parse_eq]
+  cases buf with
+  | nil => exact absurd rfl h
+  | cons vc r1 =>
+    simp only [List.cons_append] at h ⊢
+    split
+    · rfl
+    · rename_i h1
+      simp only [h1, if_false] at h
+      split
+      · rfl
+      · rename_i h2
+        simp only [h2, if_false] at h
+        cases r1 with
+        | nil => exact absurd rfl h
+        | cons fp r2 =>
+          simp only [List.cons_append] at h ⊢
+          split
+          · rfl
+          · rename_i h3
+            simp only [h3, if_false] at h
+            split
+            · rfl
+            · rename_i h4
+              simp only [h4, if_false] at h
+              cases r2 with
+              | nil => exact absurd rfl h
+              | cons l1 r2' =>
+                cases r2' with
+                | nil => exact absurd rfl h
+                | cons l2 r3 =>
+                  simp only [List.cons_append] at h ⊢
+                  by_cases hl : r3.length < len16 l1 l2
+                  · simp [hl] at h
+                  · have hl' : ¬ (r3 ++ s).length < len16 l1 l2 := by simp only [List.length_append]; omega
+                    simp only [hl, hl', if_false]
+                    rw [List.take_append_of_le_length (by omega)]
 
 end Two
 end SquidModel.Proxyp
